@@ -95,6 +95,30 @@ VARIANT['invr'] = dict(VARIANT['fpr'], drop=['sum_of_products', 'fq_div2'])   # 
 
 DEPENDS = {'divrem': ['mul', 'square', 'sop', 'fp', 'inv'], 'inv': ['mul', 'square', 'sop', 'fp'], 'invr': ['mul', 'square', 'sop', 'fpr'], 'square': ['mul'], 'sop': ['mul'], 'fp': ['mul', 'square', 'sop'], 'fpr': ['mul', 'square', 'sop']}
 
+def alpha_map(base, cur):
+    """if cur is base with identifiers consistently (bijectively) renamed, the renaming {old: new}; else None"""
+    tb = re.findall(r'\w+|[^\w\s]', base)
+    tc = re.findall(r'\w+|[^\w\s]', cur)
+    if len(tb) != len(tc):
+        return None
+    fwd, bwd = {}, {}
+    for a, b in zip(tb, tc):
+        if a == b and a not in fwd and b not in bwd:
+            fwd[a] = b; bwd[b] = a
+            continue
+        if not (re.match(r'^[A-Za-z_]\w*$', a) and re.match(r'^[A-Za-z_]\w*$', b)):
+            if a != b:
+                return None
+            continue
+        if fwd.get(a, b) != b or bwd.get(b, a) != a:
+            return None
+        fwd[a] = b; bwd[b] = a
+    ren = {a: b for a, b in fwd.items() if a != b}
+    # only plain local names may change (never types, functions, fields, keywords: those would not compile or be another program)
+    if not ren or any(a[0].isupper() or b[0].isupper() for a, b in ren.items()):
+        return None
+    return ren
+
 def erase(annot_text, marker):
     """the executable lines of the region //@BEGIN marker .. //@END (annotation-only lines end with //@)"""
     m = re.search(r'^//@BEGIN %s\n(.*?)^//@END' % re.escape(marker), annot_text, re.S | re.M)
@@ -148,7 +172,7 @@ def run_unit(unit, expanded_text, workdir):
             return dict(status='undecided', detail='function %s not found in the expanded source (lost anchor)' % marker, erasure='lost', seconds=0, verified=0, errors=[])
         log = []
         try:
-            cur = extract.tidy(rewriter(src, log))
+            cur = extract.desugar_continue(extract.tidy(rewriter(src, log)), log)
         except Exception as e:
             return dict(status='undecided', detail='rewrite rules not applicable to %s: %r' % (marker, e), erasure='lost', seconds=0, verified=0, errors=[])
         base = erase(annot, marker)
@@ -156,7 +180,21 @@ def run_unit(unit, expanded_text, workdir):
             return dict(status='undecided', detail='annotated region %s missing' % marker, erasure='lost', seconds=0, verified=0, errors=[])
         notes.append('%s: rules %s' % (marker, ' '.join('%s' % (r[0],) for r in log)))
         if base != cur:
-            # the code changed: re-attach the annotation lines to the new text.  Annotation blocks are anchored to the
+            # (a) a consistent renaming of local identifiers: rename them in the annotation lines as well
+            ren = alpha_map(base, cur)
+            if ren:
+                reg = region(annot, marker)
+                for a, b in ren.items():
+                    reg = re.sub(r'\b%s\b' % re.escape(a), '\0' + b + '\0', reg)
+                reg = reg.replace('\0', '')
+                annot2 = splice(annot, marker, reg)
+                if erase(annot2, marker) == cur:
+                    annot = annot2
+                    base = cur
+                    erasure = 'renamed'
+                    notes.append('%s: locals renamed %s' % (marker, ' '.join('%s->%s' % kv for kv in sorted(ren.items()))))
+        if base != cur:
+            # (b) the code changed: re-attach the annotation lines to the new text.  Annotation blocks are anchored to the
             # executable line that follows them; unchanged lines keep their block, a block whose anchor line was edited is
             # placed before the replacement (Verus then decides whether the proof still goes through).
             erasure = 'merged'
